@@ -22,10 +22,12 @@ Bad(id, step, inv, ok) == IF ok THEN {} ELSE {[tr |-> id, step |-> step, inv |->
 ARunningMatchesDisk(e)   == ~e.err => (e.run = e.disk /\ e.runcrt = e.diskcrt)
 AFailureImpliesReload(e) == e.faulted => e.reloads > 0
 ANoNeedlessReload(e, c)  ==
-    (e.step > 0 /\ e.epsonly /\ ~e.faulted /\ ~e.err /\ c.cookie # "preserve" /\ Len(e.eps) <= e.prev) => e.reloads = 0
+    (e.step > 0 /\ e.epsonly /\ ~e.faulted /\ ~e.err /\ c.cookie # "preserve" /\ e.fits) => e.reloads = 0
 ANoopIsNoop(e)           == (e.step > 0 /\ e.same /\ e.epsonly /\ ~e.faulted) => e.reloads = 0
 ASlotsAfterReload(e)     ==
-    (e.reloads > 0 /\ ~e.err) => (e.free >= e.minfree /\ e.total % BlockSzOf(e.block) = 0)
+    (e.reloads > 0 /\ ~e.err) =>
+        \A i \in 1..Len(e.slotinfo) :
+            e.slotinfo[i].free >= e.minfree /\ e.slotinfo[i].total % BlockSzOf(e.block) = 0
 
 JudgeA(e, c) ==
     Bad(e.tr, e.step, "RunningMatchesDisk", ARunningMatchesDisk(e)) \cup
@@ -56,7 +58,7 @@ TraceNext ==
                /\ UNCHANGED <<bad, drift>>
           ELSE /\ bad' = bad \cup JudgeA(e, cfgT)
                /\ UNCHANGED <<tr, cfgT>>
-               /\ IF skip \/ ~e.seqnames
+               /\ IF skip \/ ~e.seqnames \/ e.other
                   THEN UNCHANGED <<prevSlots, isCommitted, skip, drift>>
                   ELSE LET o == OutcomeWith(prevSlots, EpsOf(e), isCommitted, IF e.faulted THEN e.fault ELSE -1,
                                             cfgT.minfree, cfgT.block) IN
